@@ -45,6 +45,9 @@ ASSUMPTIONS = ["H and H' are built from the same symbolic variables in the same 
 REQUIRED_REACH = ['C03.listing', 'C03.times', 'C03.duration', 'C03.acquisition', 'C03.stim', 'C03.nested_copy', 'C03.unrolled', 'C03.retained', 'C03.held', 'C03.reflects_change']
 EXHAUSTIVE = {'quick': False, 'thorough': False}
 JOB_OPTS = {'quick': dict(max_paths=3000, max_seconds=400), 'thorough': dict(max_paths=20000, max_seconds=1500)}
+# random histories with many independent symbolic durations can exceed the per-job path budget; up to this many of the sampled jobs may be
+# truncated (their explored paths are checked and counted, they are listed in the evidence) without making the run inconclusive
+TRUNCATION_OK = {'quick': 8, 'thorough': 40}
 
 ALPHA = [['W', 0, 'ALL'], ['W', 1, 'ALL'], ['R', 0, 'ALL'], ['G', 'Rx180', [0]], ['M', 1, 'a']]
 ALPHA_IN = [['W', 0, 'ALL'], ['W', 1, 'ALL'], ['R', 0, 'ALL']]
@@ -137,7 +140,7 @@ def jobs(tier, seed):
         job = {'prog': prog, 'events': events, 'final': final}
         # many independent symbolic durations in parallel branches make the number of orderings (paths) explode: draw the fixed
         # durations of large programs from a pool of two symbolic values (the growth / registry values stay independent)
-        if gen.count_leaves(prog) + sum(1 for e in events if e in ('add', 'addsub', 'grow', 'grownew', 'setreg')) >= 6:
+        if gen.count_leaves(prog) + sum(1 for e in events if e in ('add', 'addsub', 'grow', 'grownew', 'setreg')) >= 5:
             job['pool'] = 2
         out.append(job)
     return out
@@ -236,7 +239,7 @@ def play(ctx, params, with_observations: bool, g_out, g_in, stack):
             holder['circuit'] = c.flatten()
         elif ev == 'setreg':
             for i, key in enumerate(built.reg_keys):
-                built.registry.set_registry_at(key, ctx.real(f'v1_{i}', lo=0, reuse=True))
+                built.registry.set_registry_at(key, ctx.real(f"v1_{i % params['pool'] if params.get('pool') else i}", lo=0, reuse=True))
         elif ev == 'enter':
             cmgr = temporary_override_get_registry_at(g_in.table())
             cmgr.__enter__()
@@ -356,7 +359,7 @@ def run(ctx, params):
             built = cm.build(ctx, params['prog'], dur_pool=params.get('pool', 0))
             if 'setreg' in params['events']:
                 for i, key in enumerate(built.reg_keys):
-                    built.registry.set_registry_at(key, ctx.real(f'v1_{i}', lo=0, reuse=True))
+                    built.registry.set_registry_at(key, ctx.real(f"v1_{i % params['pool'] if params.get('pool') else i}", lo=0, reuse=True))
             fresh = [(o.start_time, o.end_time) for o in built.circuit.operations]
         # the history's final times were read inside its own override scope, i.e. under the same final settings
         ctx.check('C03.reflects_change', pairs_equal(fa['times'], fresh), dict(info, reported=fa['times'], fresh=fresh))
